@@ -226,6 +226,11 @@ def resolve_plugin(plugin: str, lineinfo) -> object:
 
     categories = []
 
+    if not isinstance(cls, type):
+        raise exc.DataGenTypeError(
+            f"{plugin} is not a class", lineinfo.filename, lineinfo.line_num
+        )
+
     if issubclass(cls, FakerProvider):
         categories.append((FakerProvider, cls))
     else:
